@@ -204,6 +204,7 @@ def parse_schema(
     _write_hint: bool = True,
     _force: bool = False,
     _ignore_default_error: bool = False,
+    _names: Optional[Set[str]] = None,
 ) -> Schema:
     """Returns a parsed avro schema
 
@@ -262,6 +263,10 @@ def parse_schema(
     if named_schemas is None:
         named_schemas = {}
 
+    # Names defined so far in this parse; shared by the branches of a top level
+    # union so that one name cannot be defined in two of them
+    names: Set[str] = set() if _names is None else _names
+
     if isinstance(schema, dict) and "__fastavro_parsed" in schema:
         if "__named_schemas" in schema:
             for key, value in schema["__named_schemas"].items():
@@ -275,7 +280,7 @@ def parse_schema(
                 "",
                 expand,
                 _write_hint,
-                set(),
+                names,
                 named_schemas,
                 NO_DEFAULT,
                 _ignore_default_error,
@@ -287,7 +292,7 @@ def parse_schema(
             "",
             expand,
             _write_hint,
-            set(),
+            names,
             named_schemas,
             NO_DEFAULT,
             _ignore_default_error,
@@ -305,6 +310,7 @@ def parse_schema(
                 _write_hint=_write_hint,
                 _force=_force,
                 _ignore_default_error=_ignore_default_error,
+                _names=names,
             )
             for s in schema
         ]
@@ -314,7 +320,7 @@ def parse_schema(
             "",
             expand,
             _write_hint,
-            set(),
+            names,
             named_schemas,
             NO_DEFAULT,
             _ignore_default_error,
